@@ -66,6 +66,7 @@ func vFanTemplates(proj map[string]interface{}) []*vEntry {
 					add(id, fmt.Sprintf(":%s PRIVMSG %s :hi", p, c))
 					add(id, fmt.Sprintf(":%s MODE %s +i", p, c))
 					add(id, fmt.Sprintf(":%s TOPIC %s %s 5 :svc topic", p, c, p))
+					add(id, fmt.Sprintf(":%s TOPIC %s %s 0 :svc topic at epoch", p, c, p))
 					for _, m := range members[c] {
 						add(id, fmt.Sprintf(":%s KICK %s %s :x", p, c, m))
 						add(id, fmt.Sprintf(":%s MODE %s +o %s", p, c, m))
@@ -112,6 +113,8 @@ func vFanTemplates(proj map[string]interface{}) []*vEntry {
 			}
 			add(id, "JOIN "+up(c))
 			add(id, "PART "+up(c))
+			add(id, "JOIN #fresh,"+c)
+			add(id, "JOIN "+c+",#fresh")
 			for _, m := range members[c] {
 				add(id, fmt.Sprintf("KICK %s %s :x", c, m))
 				add(id, fmt.Sprintf("KICK %s %s :x", up(c), up(m)))
@@ -132,7 +135,66 @@ func vFanTemplates(proj map[string]interface{}) []*vEntry {
 	return res
 }
 
-// vFanOut writes one reset+step pair per template. base is the number of the history whose final state is probed.
+// vMutating reports whether a template can change membership / nickname / session state, so that the
+// read-only battery after it can show damage that only a later reader trips over.
+func vMutating(e *vEntry) bool {
+	if e.T != "line" {
+		return true
+	}
+	d := strings.ToUpper(e.Data)
+	for _, w := range []string{"NICK ", "JOIN ", "PART ", "KICK ", "QUIT", "KILL ", "GLINE ", "SVSNICK ", "SVSJOIN ", "SVSPART ", "SERVER "} {
+		if strings.Contains(d, w) {
+			return true
+		}
+	}
+	return false
+}
+
+// vBattery returns read-only probes (WHOIS for every nickname, NAMES/WHO/TOPIC/MODE for every channel,
+// LIST) sent by one logged-in client of the given state.
+func vBattery(proj map[string]interface{}) []*vEntry {
+	v := vViewOf(proj)
+	var asker int64 = -1
+	var nicks []string
+	for _, s := range v.sess {
+		if s["del"].(bool) {
+			continue
+		}
+		if n := s["nick"].(string); n != "" && len(nicks) < 6 {
+			nicks = append(nicks, n)
+		}
+		if asker < 0 && s["rid"].(int) == 0 && s["li"].(bool) && !s["sv"].(bool) {
+			asker = s["id"].(int64)
+		}
+	}
+	if asker < 0 {
+		return nil
+	}
+	var res []*vEntry
+	add := func(line string) {
+		res = append(res, &vEntry{T: "line", Sess: asker, Data: line, Sup: true, Conf: true})
+	}
+	for _, n := range nicks {
+		add("WHOIS " + n)
+	}
+	chans := sortedKeys(v.chansAsIface())
+	if len(chans) > 3 {
+		chans = chans[:3]
+	}
+	for _, k := range chans {
+		c := v.chans[k]["name"].(string)
+		add("NAMES " + c)
+		add("WHO " + c)
+		add("TOPIC " + c)
+		add("MODE " + c)
+	}
+	add("LIST")
+	return res
+}
+
+// vFanOut writes one short history per template: the template applied to a fresh fork and, after a
+// template that changes state, the read-only battery on the same fork. base is the number of the
+// history whose final state is probed.
 func vFanOut(enc *json.Encoder, base int, hstart int, srv *ircserver.IRCServer, nextID, ts int64) int {
 	b, err := srv.Marshal(0)
 	if err != nil {
@@ -145,22 +207,33 @@ func vFanOut(enc *json.Encoder, base int, hstart int, srv *ircserver.IRCServer, 
 			return n
 		}
 		d := &vReplica{srv: cp, direct: true}
-		e.Id, e.Ts, e.Cmid = nextID, ts, 999999
-		e.fill()
 		h := hstart + n
+		n++
 		enc.Encode(&vRecord{K: "reset", H: h, Base: base, Post: cp.VerifProject(), Out: []vReply{}, Lookup: [][]interface{}{}})
-		rec := &vRecord{K: "step", H: h, I: 1, Base: base, E: e, Lookup: [][]interface{}{}}
-		msgs, p := d.apply(e)
-		rec.Post = cp.VerifProject()
-		if p != "" {
-			rec.Panic, rec.PanicS, rec.Out = true, p, []vReply{}
-		} else {
+		steps := []*vEntry{e}
+		for idx := 0; idx < len(steps); idx++ {
+			x := steps[idx]
+			x.Id, x.Ts, x.Cmid = nextID+int64(idx), ts+int64(idx), 999999+int64(idx)
+			x.fill()
+			rec := &vRecord{K: "step", H: h, I: idx + 1, Base: base, E: x, Lookup: [][]interface{}{}}
+			msgs, p := d.apply(x)
+			rec.Post = cp.VerifProject()
+			if p != "" {
+				rec.Panic, rec.PanicS, rec.Out = true, p, []vReply{}
+				enc.Encode(rec)
+				break
+			}
 			rec.Out = vProjectReplies(msgs)
 			rec.Lines = vCheckLines(msgs)
-			rec.Rids = vCheckRids(msgs, e.Id)
+			rec.Rids = vCheckRids(msgs, x.Id)
+			enc.Encode(rec)
+			if idx == 0 && vMutating(e) && n%vBatteryEvery == 0 {
+				steps = append(steps, vBattery(rec.Post)...)
+			}
 		}
-		enc.Encode(rec)
-		n++
 	}
 	return n
 }
+
+// every vBatteryEvery-th state-changing probe is followed by the read-only battery
+var vBatteryEvery = 3
